@@ -9,6 +9,7 @@ import (
 	"sort"
 	"strconv"
 	"strings"
+	"sync"
 	"time"
 	"unicode/utf8"
 
@@ -19,6 +20,29 @@ import (
 // These may persist between runs because a regular expression object
 // is essentially constant.
 var regCache map[string]*regexp.Regexp
+
+// regCacheMutex protects regCache, which is shared by every evaluator
+// in the process.
+var regCacheMutex sync.Mutex
+
+// compileRegexp returns the compiled form of the given regular
+// expression, consulting and updating our cache.
+func compileRegexp(reg string) (*regexp.Regexp, error) {
+	regCacheMutex.Lock()
+	defer regCacheMutex.Unlock()
+
+	r, ok := regCache[reg]
+	if ok {
+		return r, nil
+	}
+
+	r, err := regexp.Compile(reg)
+	if err != nil {
+		return nil, err
+	}
+	regCache[reg] = r
+	return r, nil
+}
 
 // init ensures that our regexp cache is populated
 func init() {
@@ -253,21 +277,10 @@ func fnMatch(args []object.Object) object.Object {
 	reg := args[1].Inspect()
 
 	// Look for the compiled regular-expression object in our cache.
-	r, ok := regCache[reg]
-	if !ok {
-
-		// OK it wasn't found, so compile it.
-		var err error
-		r, err = regexp.Compile(reg)
-
-		// Ensure it compiled
-		if err != nil {
-			fmt.Printf("Invalid regular expression %s %s", reg, err.Error())
-			return &object.Boolean{Value: false}
-		}
-
-		// store in the cache for next time
-		regCache[reg] = r
+	r, err := compileRegexp(reg)
+	if err != nil {
+		fmt.Printf("Invalid regular expression %s %s", reg, err.Error())
+		return &object.Boolean{Value: false}
 	}
 
 	// Split the input by newline.
@@ -554,21 +567,10 @@ func fnReplace(args []object.Object) object.Object {
 
 
 	// Look for the compiled regular-expression object in our cache.
-	r, ok := regCache[reg]
-	if !ok {
-
-		// OK it wasn't found, so compile it.
-		var err error
-		r, err = regexp.Compile(reg)
-
-		// Ensure it compiled
-		if err != nil {
-			fmt.Printf("Invalid regular expression %s %s", reg, err.Error())
-			return &object.Boolean{Value: false}
-		}
-
-		// store in the cache for next time
-		regCache[reg] = r
+	r, err := compileRegexp(reg)
+	if err != nil {
+		fmt.Printf("Invalid regular expression %s %s", reg, err.Error())
+		return &object.Boolean{Value: false}
 	}
 
 	out := r.ReplaceAll([]byte(str), []byte(replace))
